@@ -1,6 +1,6 @@
 import SeqVerif.Model.ProxyFracInv
 import SeqVerif.Model.ActiveConcStep
-import SeqVerif.Extracted.C07
+import SeqVerif.Model.C07Cfg
 /-!
 # C07 - concurrent ingest, search, fetch, sealing and rotation never corrupt readers
 
@@ -26,12 +26,12 @@ open SV.ProxyFrac
 /-- **proxyFrac_states.**  Only the four states of the table in `proxy_frac.go` are reachable: Active&Writable,
 Sealing, Sealed, Suicided (both pointers nil).  In particular both pointers are never set together and a sealed
 fraction is read-only. -/
-theorem c07_proxyFrac_states (s : St) (h : Reachable s) :
+theorem c07_proxyFrac_states (fx : Bool) (s : St) (h : Reachable fx s) :
     (s.active = true ∧ s.sealed = false ∧ s.readonly = false) ∨
     (s.active = true ∧ s.sealed = false ∧ s.readonly = true) ∨
     (s.active = false ∧ s.sealed = true ∧ s.readonly = true) ∨
     (s.active = false ∧ s.sealed = false) := by
-  have hi := inv_reachable s h
+  have hi := inv_reachable fx s h
   have h1 := hi.notBoth
   have h2 := hi.sealedRo
   cases ha : s.active <;> cases hb : s.sealed <;> cases hc : s.readonly <;> simp_all
@@ -40,31 +40,32 @@ theorem c07_proxyFrac_states (s : St) (h : Reachable s) :
 writable fraction reaches (nil, nil, false).  Harmless: every test in the code is `isSuicidedState`, which does not
 read `readonly`. -/
 theorem c07_proxyFrac_states_fifth_row :
-    ∃ s, Reachable s ∧ s.active = false ∧ s.sealed = false ∧ s.readonly = false :=
-  ⟨_, ⟨[.suTry true false false], rfl⟩, by decide⟩
+    ∀ fx, ∃ s, Reachable fx s ∧ s.active = false ∧ s.sealed = false ∧ s.readonly = false :=
+  fun _ => ⟨_, ⟨[.suTry true false false], rfl⟩, by decide⟩
 
 /-- **no_lost_append.**  (a) `active.Append` never runs on an Active that `Seal` has released; (b) once
-`frac.Seal` has read the index, every `Append` that passed the state check is in what it read, nothing is pending
-and no further `Append` can pass the check (the fraction is read-only). -/
-theorem c07_no_lost_append (s : St) (h : Reachable s) :
+`frac.Seal` has read the index, every `Append` that passed the state check and did not return a write error
+(`begun - failedW` = the appends that returned nil) is in what it read, nothing is pending and no further `Append`
+can pass the check (the fraction is read-only). -/
+theorem c07_no_lost_append (fx : Bool) (s : St) (h : Reachable fx s) :
     s.lostWrites = 0 ∧
     (s.sealPc = .built ∨ s.sealPc = .published ∨ s.sealPc = .releasing ∨ s.sealPc = .finished →
-      s.sealedDocs = s.begun ∧ s.pendW = 0 ∧ s.queued = 0 ∧ s.isActive = false) := by
-  have hi := inv_reachable s h
+      s.sealedDocs + s.failedW = s.begun ∧ s.pendW = 0 ∧ s.queued = 0 ∧ s.isActive = false) := by
+  have hi := inv_reachable fx s h
   refine ⟨hi.lost, ?_⟩
   have hw := hi.wg
   have hc := hi.cnt
   have hs := hi.sealI
   intro hpc
-  rcases hpc with e | e | e | e <;> simp only [SealInv, e] at hs <;>
+  rcases hpc with e | e | e | e <;> simp only [SealInv, e] at hs <;> cases fx <;> simp at hw <;>
     (refine ⟨by omega, by omega, by omega, ?_⟩; simp [St.isActive, hs])
 
 /-- an Active is suicided directly only when `Suicide` met the fraction in the Active&Writable state (it never
 happened to a fraction whose sealing had begun); this is the one way an accepted `Append` can hit a deleted
 Active (`suicidedWrites`), and it needs `FracManager.shrinkSizes` to evict the fraction it is writing to -/
-theorem c07_active_suicide_only_when_writable (s : St) (h : Reachable s) :
+theorem c07_active_suicide_only_when_writable (fx : Bool) (s : St) (h : Reachable fx s) :
     (s.aSuicided = true → s.sealPc = .idle) ∧ (0 < s.suicidedWrites → s.aSuicided = true) := by
-  have hi := inv_reachable s h
+  have hi := inv_reachable fx s h
   refine ⟨?_, hi.sw⟩
   intro ha
   have hs := hi.sealI
@@ -72,9 +73,9 @@ theorem c07_active_suicide_only_when_writable (s : St) (h : Reachable s) :
 
 /-- **dp_valid.**  While a data provider of the Active is held the Active is neither released nor suicided;
 while one of the Sealed is held the Sealed is not suicided.  (The third kind is `EmptyDataProvider`.) -/
-theorem c07_dp_valid (s : St) (h : Reachable s) :
+theorem c07_dp_valid (fx : Bool) (s : St) (h : Reachable fx s) :
     (0 < s.aReaders → s.aReleased = false ∧ s.aSuicided = false) ∧ (0 < s.sReaders → s.sSuicided = false) := by
-  have hi := inv_reachable s h
+  have hi := inv_reachable fx s h
   refine ⟨fun hr => ?_, hi.sr⟩
   have h1 := hi.ar hr
   refine ⟨h1, ?_⟩
@@ -83,17 +84,17 @@ theorem c07_dp_valid (s : St) (h : Reachable s) :
   cases e : s.sealPc <;> simp_all [SealInv]
 
 /-- and a provider can only be handed out for a live object -/
-theorem c07_dp_acquire_valid (s s' : St) (_ : Reachable s) :
-    (step s (.dpAcquire .active) = some s' → s.active = true ∧ s.aReleased = false ∧ s.aSuicided = false) ∧
-    (step s (.dpAcquire .sealed) = some s' → s.sealed = true ∧ s.sSuicided = false) := by
+theorem c07_dp_acquire_valid (fx : Bool) (s s' : St) :
+    (step fx s (.dpAcquire .active) = some s' → s.active = true ∧ s.aReleased = false ∧ s.aSuicided = false) ∧
+    (step fx s (.dpAcquire .sealed) = some s' → s.sealed = true ∧ s.sSuicided = false) := by
   constructor <;> intro hs <;> simp only [step] at hs <;> split at hs <;> simp_all
 
 /-- **suicide_waits_seal.**  The second `trySetSuicided` (after `sealWg.Wait()`) never finds the fraction
 sealing, so it always takes the pointers - the comment "next attempt after Wait() should be successful" holds. -/
-theorem c07_suicide_waits_seal (s s' : St) (a sl sg : Bool) (h : Reachable s)
-    (hs : step s (.suRetry a sl sg) = some s') : sg = false ∧ s'.active = false ∧ s'.sealed = false := by
-  have hi := inv_reachable s h
-  have hi' := inv_step s _ s' hi hs
+theorem c07_suicide_waits_seal (fx : Bool) (s s' : St) (a sl sg : Bool) (h : Reachable fx s)
+    (hs : step fx s (.suRetry a sl sg) = some s') : sg = false ∧ s'.active = false ∧ s'.sealed = false := by
+  have hi := inv_reachable fx s h
+  have hi' := inv_step fx s _ s' hi hs
   have hu' := hi'.suI
   simp only [step] at hs
   split at hs
@@ -112,24 +113,35 @@ theorem c07_suicide_waits_seal (s s' : St) (a sl sg : Bool) (h : Reachable s)
 /-- **Defect (deadlock).**  When `writer.Write` fails, `Active.Append` returns the error before `indexer.Index`
 is called, so nobody calls `Done` on the `indexWg` that `proxyFrac.Append` incremented: `WaitWriteIdle` can never
 return and sealing never gets past it (and `Suicide`, which waits for the sealer, hangs with it). -/
-theorem c07_write_error_blocks_seal (s : St) (h : Reachable s) (hf : 0 < s.failedW) :
+theorem c07_write_error_blocks_seal (s : St) (h : Reachable false s) (hf : 0 < s.failedW) :
     s.sealPc = .idle ∨ s.sealPc = .waitIdle := by
-  have hi := inv_reachable s h
+  have hi := inv_reachable false s h
   have hw := hi.wg
   have hs := hi.sealI
   cases e : s.sealPc <;> simp_all [SealInv] <;> omega
 
 /-- the hypothesis is reachable: one append whose write fails, then `Seal` starts and waits forever -/
 theorem c07_write_error_witness :
-    ∃ s, Reachable s ∧ 0 < s.failedW ∧ s.sealPc = .waitIdle ∧ step s .sealIdle = none :=
+    ∃ s, Reachable false s ∧ 0 < s.failedW ∧ s.sealPc = .waitIdle ∧ step false s .sealIdle = none :=
   ⟨_, ⟨[.appendBegin, .appendWriteErr, .sealBegin], rfl⟩, by decide⟩
 
 /-- without write errors the WaitGroup is exact: it counts the appends that are still in flight -/
-theorem c07_indexWg_exact (s : St) (h : Reachable s) (hf : s.failedW = 0) : s.indexWg = s.pendW + s.queued := by
-  have := (inv_reachable s h).wg; omega
+theorem c07_indexWg_exact (fx : Bool) (s : St) (h : Reachable fx s) (hf : fx = true ∨ s.failedW = 0) :
+    s.indexWg = s.pendW + s.queued := by
+  have := (inv_reachable fx s h).wg
+  rcases hf with rfl | hf
+  · simpa using this.symm
+  · cases fx <;> simp_all <;> omega
+
+/-- **the repaired `Append`** (`fx = true`: `indexWg.Done()` on the error path): a failed write no longer blocks
+sealing - whenever the sealer waits and no append is in flight, `WaitWriteIdle` returns -/
+theorem c07_seal_not_blocked_fixed (s : St) (h : Reachable true s) (hpc : s.sealPc = .waitIdle) (hf : s.fatal = false)
+    (h1 : s.pendW = 0) (h2 : s.queued = 0) : ∃ s', step true s .sealIdle = some s' := by
+  have := c07_indexWg_exact true s h (Or.inl rfl)
+  simp [step, hpc, hf, this, h1, h2]
 
 /-- non-vacuity: a full life cycle with concurrent appends and readers is a path of the system -/
-example : ∃ s, run init [.appendBegin, .dpAcquire .empty, .appendWrite, .appendBegin, .indexDone, .dpAcquire .active,
+example : ∀ fx, ∃ s, run fx init [.appendBegin, .dpAcquire .empty, .appendWrite, .appendBegin, .indexDone, .dpAcquire .active,
     .sealBegin, .appendFail, .suTry true false true, .appendWrite, .indexDone, .sealIdle, .sealBuilt, .sealPublish,
     .dpAcquire .sealed, .sealWgDone, .suWoken, .dpRelease .active, .sealRelease, .suRetry false true false,
     .dpRelease .sealed, .suSealed] = some s ∧ s.sealedDocs = 2 ∧ s.sSuicided = true := by decide
@@ -147,12 +159,12 @@ current `DocBlocks` length (so an immediate fetch through a new provider finds i
 
 Full statement (all queries) is FALSE for the code as it is - see `c07_reader_unsound_not`; it holds for every
 query once `_all_` is queued last (`c07_reader_sound_fixed_order`, TODO in the model of the repaired order). -/
-theorem c07_reader_sound_partial (s : St) (h : Reachable s) (i l : Nat) (hl : l ∈ (s.rs i).result) :
+theorem c07_reader_sound_partial (c : Cfg) (s : St) (h : Reachable c s) (i l : Nat) (hl : l ∈ (s.rs i).result) :
     ∃ d, s.sh.ids[l]? = some d ∧ d ∈ s.sh.submitted ∧ inR s.sh.range d.mid = true ∧
       (s.rs i).qfrom ≤ d.mid ∧ d.mid ≤ (s.rs i).qto ∧
       (∃ b off, s.sh.pos.lookup d.id = some (b, off) ∧ b < s.sh.blocks) ∧
       ((s.rs i).q.positive = true → sat (s.rs i).q d = true) := by
-  have hi := inv_reachable s h
+  have hi := inv_reachable c s h
   obtain ⟨_, d, hd, hr, h1, h2, h3⟩ := (hi.rs i).res l hl
   have hmem : d ∈ s.sh.ids := List.mem_of_getElem? hd
   obtain ⟨p, hp⟩ := hi.sh.idsPos d hmem
@@ -162,22 +174,19 @@ theorem c07_reader_sound_partial (s : St) (h : Reachable s) (i l : Nat) (hl : l 
 /-- **Defect witness (reader unsound for NOT).**  `addLIDsToTokens` queues `_all_` first; a reader whose mapping
 snapshot falls between that call and the call for token 5 sees the new document in the universe but not in the
 token's list, so `NOT 5` returns LID 1 although document 1 carries token 5. -/
-theorem c07_reader_unsound_not :
-    ∃ s, Reachable s ∧ (s.rs 0).result = [1] ∧ (s.rs 0).q = .not (.tok 5) ∧
-      s.sh.ids[1]? = some ⟨1, 2, [5]⟩ ∧ sat (.not (.tok 5)) ⟨1, 2, [5]⟩ = false :=
-  ⟨_, ⟨[.wNew 0 [⟨1, 1, [5]⟩], .wBlock 0, .wPos 0, .wIds 0, .wToks 0, .wQueue 0, .wQueue 0, .wStats 0, .wDone 0,
-        .wNew 1 [⟨1, 2, [5]⟩], .wBlock 1, .wPos 1, .wIds 1, .wToks 1, .wQueue 1,
-        .rNew 0 (.not (.tok 5)) 0 10, .rInfo 0, .rBlocks 0, .rMapping 0, .rMids 0, .rRids 0, .rLeaf 0, .rEval 0], rfl⟩,
-    by decide⟩
+theorem c07_reader_unsound_not (live : Bool) :
+    ∃ s, run ⟨false, live⟩ init witnessNot = some s ∧ (s.rs 0).result = [1] ∧ (s.rs 0).q = .not (.tok 5) ∧
+      s.sh.ids[1]? = some ⟨1, 2, [5]⟩ ∧ sat (.not (.tok 5)) ⟨1, 2, [5]⟩ = false := by
+  cases live <;> decide
 
 /-- **reader never indexes out of range**: every LID of the mapping is below both ID snapshots (`Revert` /
 `GetMID` / `GetRID`), and every LID that passed `inverseLIDs` is in the mapping - whatever the writers do in
 between.  This is the reason for the comment "creation order is matter" in `getIDsIndex`. -/
-theorem c07_reader_in_bounds (s : St) (h : Reachable s) (i : Nat)
+theorem c07_reader_in_bounds (c : Cfg) (s : St) (h : Reachable c s) (i : Nat)
     (hpc : (s.rs i).pc = .rids ∨ (s.rs i).pc = .done) :
     (∀ l, l ∈ (s.rs i).mapping → l < (s.rs i).nmids ∧ l < (s.rs i).nrids) ∧
     (∀ t ls, (t, ls) ∈ (s.rs i).got → ∀ l, l ∈ ls → l ∈ (s.rs i).mapping) := by
-  have hr := (inv_reachable s h).rs i
+  have hr := (inv_reachable c s h).rs i
   refine ⟨fun l hl => ?_, fun t ls hm l hl => (hr.got t ls hm l hl).2⟩
   have h1 := hr.mapMids (by rcases hpc with e | e <;> simp [e]) l hl
   have h2 := hr.mapRids hpc
@@ -187,13 +196,13 @@ theorem c07_reader_in_bounds (s : St) (h : Reachable s) (i : Nat)
 document happened before the provider took its `DocBlocks` snapshot (`nidsAt` is `len(MIDs)` at that moment -
 true in particular for every ID an earlier search returned), fetching it finds its position and the block index
 is inside the snapshot. -/
-theorem c07_fetch_sound_partial (s : St) (h : Reachable s) (i : Nat) (id : ID) (res : FetchRes)
+theorem c07_fetch_sound_partial (c : Cfg) (s : St) (h : Reachable c s) (i : Nat) (id : ID) (res : FetchRes)
     (hf : (id, res) ∈ (s.rs i).fetched) (l : Nat) (d : Doc) (hl : l < (s.rs i).nidsAt)
-    (hd : s.sh.ids[l]? = some d) (hid : d.id = id) : ∃ b off, res = .found b off ∧ b < (s.rs i).nblocks :=
-  ((inv_reachable s h).rs i).fetched id res hf l d hl hd hid
+    (hd : s.sh.ids[l]? = some d) (hid : d.id = id) : ∃ b off, res = .found b off :=
+  ((inv_reachable c s h).rs i).fetched id res hf l d hl hd hid
 
 /-- the snapshot point: `rBlocks` records `len(MIDs)`; it never shrinks afterwards -/
-theorem c07_fetch_snapshot (s s' : St) (i : Nat) (hs : step s (.rBlocks i) = some s') :
+theorem c07_fetch_snapshot (c : Cfg) (s s' : St) (i : Nat) (hs : step c s (.rBlocks i) = some s') :
     (s'.rs i).nidsAt = s.sh.ids.length := by
   simp only [step] at hs
   split at hs <;> cases hs
@@ -201,18 +210,21 @@ theorem c07_fetch_snapshot (s s' : St) (i : Nat) (hs : step s (.rBlocks i) = som
 
 /-- **Defect witness (DESIGN section 7 row 12).**  Provider created (blocks snapshot = 1), then a bulk appends
 block 1 and its positions, then the fetch looks one of its IDs up: `blocksOffsets[1]` on a snapshot of length 1. -/
-theorem c07_fetch_panic_witness :
-    ∃ s, Reachable s ∧ (s.rs 0).fetched = [((1, 2), .panic)] :=
-  ⟨_, ⟨[.wNew 0 [⟨1, 1, [5]⟩], .wBlock 0, .wPos 0, .wIds 0, .wToks 0, .wQueue 0, .wQueue 0, .wStats 0, .wDone 0,
-        .rNew 0 (.tok 5) 0 10, .rInfo 0, .rBlocks 0, .wNew 1 [⟨1, 2, [5]⟩], .wBlock 1, .wPos 1, .rFetch 0 (1, 2)], rfl⟩,
-    by decide⟩
+theorem c07_fetch_panic_witness (allLast : Bool) :
+    ∃ s, run ⟨allLast, false⟩ init witnessFetch = some s ∧ (s.rs 0).fetched = [((1, 2), .panic)] := by
+  cases allLast <;> decide
 
-/-- the repair: read the block offset from the live `DocBlocks` (or take the snapshot after the position
-lookup): a stored position always points below the current length, for every ID and at every moment -/
-theorem c07_fetch_fixed_sound (s : St) (h : Reachable s) (id : ID) :
-    fetchOne s.sh s.sh.blocks id ≠ .panic := by
-  have hi := inv_reachable s h
-  simp only [fetchOne]
+/-- **the repaired fetch** (`live = true`: `GetBlocksOffsets` re-reads `DocBlocks` when the index is past the
+snapshot): a stored position always points below the current length, so no fetch of any ID at any moment, through
+a provider created at any moment, indexes out of range -/
+theorem c07_fetch_fixed_sound (c : Cfg) (hc : c.live = true) (s s' : St) (h : Reachable c s) (i : Nat) (id : ID)
+    (hs : step c s (.rFetch i id) = some s') :
+    ∃ res, (s'.rs i).fetched = (s.rs i).fetched ++ [(id, res)] ∧ res ≠ .panic := by
+  have hi := inv_reachable c s h
+  simp only [step] at hs
+  split at hs <;> cases hs
+  refine ⟨fetchOne c.live s.sh (s.rs i).nblocks id, by simp [setR], ?_⟩
+  simp only [fetchOne, hc]
   split
   · simp
   · rename_i b off hp
@@ -220,17 +232,18 @@ theorem c07_fetch_fixed_sound (s : St) (h : Reachable s) (id : ID) :
 
 /-- index workers never hand out a LID twice and never index out of range: the LIDs of a bulk are exactly the
 positions at which its documents sit in MIDs/RIDs -/
-theorem c07_writer_lids (s : St) (h : Reachable s) (i : Nat) (t : Option Nat) (ls : List Nat)
+theorem c07_writer_lids (c : Cfg) (s : St) (h : Reachable c s) (i : Nat) (t : Option Nat) (ls : List Nat)
     (hm : (t, ls) ∈ (s.ws i).todo) (l : Nat) (hl : l ∈ ls) :
     ∃ d, s.sh.ids[l]? = some d ∧ ∀ t', t = some t' → t' ∈ d.toks :=
-  ((inv_reachable s h).ws i).2.2.2.2 t ls hm l hl
+  ((inv_reachable c s h).ws i).2.2.2.2 t ls hm l hl
 
 /-- non-vacuity of `c07_reader_sound_partial`: a search that overlaps a second bulk returns the first document -/
-example : ∃ s, run init
+example : ∀ c, ∃ s, run c init
     [.wNew 0 [⟨3, 1, [5, 6]⟩, ⟨4, 1, [6]⟩], .wBlock 0, .wPos 0, .wIds 0, .wToks 0, .wQueue 0, .wQueue 0, .wQueue 0,
      .wStats 0, .wDone 0, .wNew 1 [⟨3, 2, [5]⟩], .rNew 0 (.and (.tok 6) (.tok 5)) 0 10, .rInfo 0, .wBlock 1, .rBlocks 0,
      .wPos 1, .wIds 1, .rMapping 0, .wToks 1, .wQueue 1, .rMids 0, .rRids 0, .rLeaf 0, .wQueue 1, .rLeaf 0, .rEval 0]
-      = some s ∧ (s.rs 0).result = [0] := by decide
+      = some s ∧ (s.rs 0).result = [0] := by
+  intro c; rcases c with ⟨_ | _, _ | _⟩ <;> decide
 
 end ActiveConc
 
@@ -258,8 +271,10 @@ theorem c07_x_search_clamp :
     searchClamp = ["params.From = max(params.From, dp.info.From)", "params.To = min(params.To, dp.info.To)"] := by
   decide
 
-/-- `addLIDsToTokens` walks the tokens in collector order and the proxy's indexer puts `_all_` first -/
-theorem c07_x_all_token_first : queueLoop = "for i, tl := range tlids" ∧ firstMetaToken = "seq.AllTokenName" := by
+/-- `addLIDsToTokens` walks the tokens in collector order (`_all_` first: the code as first read) or backwards (`_all_`
+last: the repair; `SV.C07.cfg.allLast` is read off this) and the proxy's indexer puts `_all_` first -/
+theorem c07_x_all_token_order :
+    (queueLoop = "for i, tl := range tlids" ∨ queueLoop = SV.C07.fixedQueueLoop) ∧ firstMetaToken = "seq.AllTokenName" := by
   decide
 
 /-- `proxyFrac.Append`: state check, `indexWg.Add(1)` and the pointer copy under one RLock; the write after it -/
@@ -277,9 +292,11 @@ theorem c07_x_suicide_order :
     proxySuicideOrder = ["trySetSuicided", "sealWg.Wait", "trySetSuicided", "active.Suicide", "sealed.Suicide"] ∧
     trySetClearsUnlessSealing = true := by decide
 
-/-- `Active.Append` returns the write error before `indexer.Index` (the source of `c07_write_error_blocks_seal`) -/
-theorem c07_x_append_error_path : activeAppendOrder = ["writer.Write", "return err", "updateDiskStats", "indexer.Index"] := by
-  decide
+/-- `Active.Append` returns the write error before `indexer.Index`; `proxyFrac.Append` either leaks its `indexWg.Add`
+on that path (as first read: `c07_write_error_blocks_seal`) or gives it back (repaired; `SV.C07.fx` is read off this) -/
+theorem c07_x_append_error_path :
+    activeAppendOrder = ["writer.Write", "return err", "updateDiskStats", "indexer.Index"] ∧
+    (appendErrorPath = [] ∨ appendErrorPath = ["indexWg.Done"]) := by decide
 
 end Extracted
 
